@@ -3,6 +3,7 @@
 # Applies the patch in a scratch worktree of /repo (never in /repo itself), optionally
 # checks that the library still builds and its suite passes (SUITE=1), runs the given
 # checks against it and prints one line per check. The worktree is reset afterwards.
+VDIR=$(cd "$(dirname "$0")/.." && pwd)
 PATCH=$(readlink -f "$1"); TIER=$2; shift 2
 WT=${MUT_WT:-/tmp/wt-try}
 if [ ! -d $WT ]; then git -C /repo worktree add -f $WT HEAD >/dev/null 2>&1 || exit 2; fi
@@ -14,7 +15,7 @@ if [ "${SUITE:-0}" = 1 ]; then
 fi
 for P in "$@"; do
   s=$(date +%s)
-  out=$(cd /verif && VERIF_REPO=$WT VERIF_OUT=${MUT_OUT:-/tmp/verif-mut-out} ./check $P $TIER 2>&1); rc=$?
+  out=$(cd "$VDIR" && VERIF_REPO=$WT VERIF_OUT=${MUT_OUT:-/tmp/verif-mut-out} ./check $P $TIER 2>&1); rc=$?
   e=$(( $(date +%s) - s ))
   sig=$(echo "$out" | grep -A1 "^VIOLATION" | grep signature | head -2 | tr '\n' ' ' | cut -c1-220)
   infra=$(echo "$out" | grep -m1 "^INFRA" | cut -c1-160)
